@@ -93,8 +93,10 @@ def run(ctx):
     for name in ("example", "generomak"):
         ctx.crumb({"building": name})
         eq, inputs = H.bundled(name)
-        eqs.append(H.Eq(name, eq, inputs))
-    n_syn = 6 if quick else 30
+        E = H.Eq(name, eq, inputs)
+        E.rebuild = (lambda name=name: H.Eq(name, *H.bundled(name)))
+        eqs.append(E)
+    n_syn = 8 if quick else 30
     for k in range(n_syn):
         p = H.solovev_params(rng, 1 if k % 2 == 0 else -1, k)
         if k < 6:      # make sure the quick tier has both signs of every special feature
@@ -102,9 +104,16 @@ def run(ctx):
             p["axis_shift"] = 0.04 if k in (2, 3) else p["axis_shift"]
             p["plateau"] = k in (4, 5)
             p["z_symmetric"] = k in (1, 2, 5)
+            p["nr"], p["nz"] = max(p["nr"], 9), max(p["nz"], 9)     # the special features need a few nodes
+        elif k in (6, 7):
+            # smallest grids / polygons and the ends of the scale ranges, in every run
+            p.update(nr=3 if k == 6 else 5, nz=4 if k == 6 else 3, poly_n=3 if k == 6 else 4, u0=0.0, plateau=False,
+                     psi_scale_exp=-100 if k == 6 else 100, length_scale_exp=-3 if k == 6 else 3)
         ctx.crumb({"building": "solovev", "params": p})
         eq, inputs = H.build_solovev(p)
-        eqs.append(H.Eq("solovev%+d#%d" % (p["sign"], k), eq, inputs, p))
+        E = H.Eq("solovev%+d#%d" % (p["sign"], k), eq, inputs, p)
+        E.rebuild = (lambda p=p, nm=E.name: H.Eq(nm, *H.build_solovev(p, scribble_inputs=True), p))
+        eqs.append(E)
 
     n_pts_bundled = 70 if quick else 500
     n_pts_syn = 30 if quick else 80
@@ -113,7 +122,8 @@ def run(ctx):
                                  "zero_inplane_field": 0, "one_inplane_component_zero": 0, "psin_exactly_1_inside_polygon": 0}
     profile_kinds = {}
     n_search = n_errors = n_radius_split = set_index = 0
-    array_shapes, rejection_outcomes = {}, {}
+    array_shapes, rejection_outcomes, edge_outcomes = {}, {}, {}
+    audit_counts = {"history_re_evaluations": 0, "direct_helper_class_comparisons": 0, "attribute_comparisons": 0}
     for E in eqs:
         n_pts = n_pts_bundled if E.params is None else n_pts_syn
         pts = H.sample_points(E, rng, n_pts)
@@ -137,20 +147,21 @@ def run(ctx):
                 if pr.kind == "array":
                     key = "%s N=%d %s %s" % (role, pr.desc["N"], pr.desc["container"], pr.desc["flavour"])
                     array_shapes[key] = array_shapes.get(key, 0) + 1
-        # below the smallest N: the documented interpolant's own rejection is the expected outcome
-        expected_rej, seen_rej = H.rejected_profile_outcomes(E.eq)
-        rejection_outcomes["expected"] = expected_rej
-        for nm, got in seen_rej.items():
-            rejection_outcomes.setdefault(nm, {}).setdefault(got, 0)
-            rejection_outcomes[nm][got] += 1
-            if got != expected_rej:
-                fails.append({"equilibrium": E.describe(), "profile": [[0.5], [1.0]], "entry_point": nm, "observed": got,
-                              "expected": expected_rej,
-                              "clause": "a 2x1 profile (below the interpolant's minimum of 2 knots) is not rejected like the documented interpolant"})
+        # arrays that are not a 2xN profile with N >= 2 increasing knots: the documented conversion's own
+        # rejection is the expected outcome of every profile-taking entry point
+        for form, (expected_rej, seen_rej) in H.rejected_profile_outcomes(E.eq).items():
+            slot = rejection_outcomes.setdefault(form, {"expected": expected_rej, "observed": {}})
+            for nm, got in seen_rej.items():
+                slot["observed"].setdefault(nm, {}).setdefault(got, 0)
+                slot["observed"][nm][got] += 1
+                if got != expected_rej:
+                    fails.append({"equilibrium": E.describe(), "profile": H.INVALID_PROFILES[form], "entry_point": nm, "observed": got,
+                                  "expected": expected_rej,
+                                  "clause": "an array that is not a valid 2xN profile (%s) is not rejected like the documented interpolant" % form})
         if not sets:
             continue
         n_sets = len(sets)
-        angles = []
+        angles, evaluated = [], []
         for pi, (x, y, z, cls) in enumerate(pts):
             k = pi % n_sets
             PS, fns = sets[k], built[k]
@@ -190,6 +201,7 @@ def run(ctx):
                 stage_inputs["psin_exactly_1_inside_polygon"] += 1
             cases.append(case_text(E, PS, o))
             meta.append(dict(info, outputs=o))
+            evaluated.append((x, y, z, k, o))
             if o["skip"]:
                 # the two mappers chose different radii: second case through the vector mapper's radius
                 n_radius_split += 1
@@ -206,8 +218,34 @@ def run(ctx):
             for f in ff:
                 fails.append(dict(info, **f))
 
-        for f in H.flux_surface_failures(E, angles):
+        if min(len(E.r), len(E.z)) >= 8:      # on coarser grids the grid differences say little about the interpolant
+            for f in H.flux_surface_failures(E, angles):
+                fails.append(dict({"equilibrium": E.describe()}, **f))
+        # the same live objects again (other order, numpy coordinates), objects built afresh, helper classes used
+        # directly, readable attributes, one ulp outside the domain
+        ctx.crumb({"equilibrium": E.describe(), "stage": "history / fresh object / direct classes / attributes"})
+        hf, hn = H.history_failures(E, sets, built, evaluated, rng, E.rebuild, n=10 if quick else 20)
+        df, dn = H.direct_class_failures(E, sets, built, evaluated, rng, n=6 if quick else 20)
+        af, an = H.attribute_failures(E, rng)
+        audit_counts["history_re_evaluations"] += hn
+        audit_counts["direct_helper_class_comparisons"] += dn
+        audit_counts["attribute_comparisons"] += an
+        for f in hf + df + af:
             fails.append(dict({"equilibrium": E.describe()}, **f))
+        for nm, (want, got) in H.domain_edge_outcomes(E, sets[0], built[0]).items():
+            edge_outcomes.setdefault(nm, {}).setdefault("%s (expected %s)" % (got, want), 0)
+            edge_outcomes[nm]["%s (expected %s)" % (got, want)] += 1
+            if got != want:
+                fails.append({"equilibrium": E.describe(), "call": nm, "observed": got, "expected": want,
+                              "clause": "one ulp outside the (r, z) grid domain: %s is not %s" % (nm, want)})
+
+    ctor = H.constructor_rejections()
+    for nm, got in ctor.items():
+        want_ok = nm.startswith("valid")
+        if got.startswith("accepted") != want_ok or (not want_ok and got != "TypeError"):
+            fails.append({"clause": "x_points / strike_points validation: %s -> %s" % (nm, got), "observed": got})
+    # flux maps of extreme magnitude (2^520, 2^-540): reported under a stable key (see known_findings.txt)
+    extreme = H.extreme_scale_failures()
 
     # ---- derivative grids at nodes -----------------------------------------------------------------
     grad_cases, grad_meta = [], []
@@ -282,6 +320,8 @@ def run(ctx):
     # ---- failing-input search results --------------------------------------------------------------
     ctx.obligation("executable property on the implementation (%d points, %d equilibria)" % (n_search, len(eqs)), "search",
                    not fails, str(fails[:2])[:1500])
+    for f in extreme:
+        ctx.violation("c12:extreme-psi-scale", f["clause"], f, found=True)
     seen = set()
     for f in fails:
         key = "c12:" + f["clause"][:60]
@@ -315,7 +355,13 @@ def run(ctx):
                 "one gradient case = one node value of a d psi interpolator against the model's np.gradient line",
         "distribution": {"equilibria": [E.describe()["name"] for E in eqs], "sign_of_psi_lcfs_minus_psi_axis": sign_hist,
                          "point_classes": classes, "lcfs_classes": stage_inputs, "profile_kinds": profile_kinds, "array_profile_shapes(entry point, N, container, flavour)": array_shapes,
-                         "profile_with_N=1(expected outcome and observed per entry point)": rejection_outcomes,
+                         "invalid_profile_arrays(expected outcome and observed per entry point)": rejection_outcomes,
+                         "one_ulp_outside_domain(outcomes)": edge_outcomes, "x_points_strike_points_validation": ctor,
+                         "audit_counts": audit_counts, "extreme_psi_scale_failures": len(extreme),
+                         "grid_sizes": sorted({(len(E.r), len(E.z)) for E in eqs}), "polygon_sizes": sorted({int(E.poly.shape[0]) for E in eqs}),
+                         "psi_scale_exponents": sorted({E.params.get("psi_scale_exp", 0) for E in eqs if E.params}),
+                         "length_scale_exponents": sorted({E.params.get("length_scale_exp", 0) for E in eqs if E.params}),
+                         "constructor_argument_forms": sorted({f for E in eqs if E.params for f in E.params.get("forms", {}).values()}),
                          "ambiguous_psin_within_tolerance_of_1": n_amb, "gradient_node_values": len(grad_cases),
                          "search_points": n_search, "points_where_scalar_and_vector_mapper_radius_differ": n_radius_split, "points_where_the_implementation_raised": n_errors, "disagreeing_stage_histogram": stage_hist},
         "tolerance": {"psi_n": "2^-40 + 2^-38 (|psi|+|psi_axis|+|psi_lcfs|)/|psi_lcfs-psi_axis| (absolute)",
